@@ -59,6 +59,14 @@ Fixpoint stream (evs : list ev) : str :=
   | _ :: r => stream r
   end.
 
+(* number of injected failures left in a script *)
+Fixpoint nfail (evs : list ev) : nat :=
+  match evs with
+  | [] => 0%nat
+  | Fail :: r => S (nfail r)
+  | _ :: r => nfail r
+  end.
+
 Fixpoint ev_weight (evs : list ev) : nat :=
   match evs with
   | [] => 0%nat
